@@ -10,9 +10,17 @@ import (
 // every count must be non-negative and backed by bytes.
 
 type r struct {
-	b   []byte
-	pos int
-	err error
+	b       []byte
+	pos     int
+	err     error
+	lenient bool // structure only: undefined flag bits, enum values and trailing bytes are tolerated
+}
+
+// invalid reports a value that is well-formed structurally but not defined by the specification.
+func (r *r) invalid(format string, a ...interface{}) {
+	if !r.lenient {
+		r.fail(format, a...)
+	}
 }
 
 func (r *r) fail(format string, a ...interface{}) {
@@ -97,7 +105,7 @@ func (r *r) value(v Version) Value {
 		return Value{Kind: -1}
 	case n == -2:
 		if !v.HasUnset() {
-			r.fail("unset [value] not defined for %v", v)
+			r.invalid("unset [value] not defined for %v", v)
 		}
 		return Value{Kind: -2}
 	}
@@ -197,14 +205,29 @@ func DecodeFrame(b []byte, decompress func([]byte) ([]byte, error)) (*Frame, Hea
 }
 
 // DecodeBody parses an uncompressed body strictly.
-func DecodeBody(h Header, body []byte) (*Frame, error) {
+func DecodeBody(h Header, body []byte) (*Frame, error) { return decodeBody(h, body, false) }
+
+// WellStructured reports whether b is one uncompressed frame whose lengths and counts are all
+// consistent with the bytes present, tolerating undefined flag bits and enum values and trailing
+// bytes. It never allocates more than the input size; checks use it to discard mutants whose
+// length fields were damaged before handing them to the library.
+func WellStructured(b []byte) bool {
+	h, n, err := DecodeHeader(b)
+	if err != nil || h.Flags&FlagCompressed != 0 || len(b)-n < int(h.Length) {
+		return false
+	}
+	_, err = decodeBody(h, b[n:n+int(h.Length)], true)
+	return err == nil
+}
+
+func decodeBody(h Header, body []byte, lenient bool) (*Frame, error) {
 	v := h.Version
 	f := &Frame{Version: v, Response: h.Response, Stream: h.Stream}
-	x := &r{b: body}
-	if h.Flags&^(FlagCompressed|FlagTracing|FlagCustomPayload|FlagWarning) != 0 {
+	x := &r{b: body, lenient: lenient}
+	if !lenient && h.Flags&^(FlagCompressed|FlagTracing|FlagCustomPayload|FlagWarning) != 0 {
 		return nil, fmt.Errorf("header flags %#x: bits not defined (no beta version exists)", h.Flags)
 	}
-	if h.Flags&(FlagCustomPayload|FlagWarning) != 0 && !v.HasPayloadAndWarnings() {
+	if !lenient && h.Flags&(FlagCustomPayload|FlagWarning) != 0 && !v.HasPayloadAndWarnings() {
 		return nil, fmt.Errorf("header flags %#x not defined for %v", h.Flags, v)
 	}
 	if h.Flags&FlagTracing != 0 {
@@ -218,10 +241,13 @@ func DecodeBody(h Header, body []byte) (*Frame, error) {
 	}
 	if h.Flags&FlagWarning != 0 {
 		if !h.Response {
-			return nil, errors.New("WARNING flag on a request")
+			if !lenient {
+				return nil, errors.New("WARNING flag on a request")
+			}
+		} else {
+			l := x.strlist()
+			f.Warnings = &l
 		}
-		l := x.strlist()
-		f.Warnings = &l
 	}
 	if h.Flags&FlagCustomPayload != 0 {
 		n := int(x.short())
@@ -235,7 +261,7 @@ func DecodeBody(h Header, body []byte) (*Frame, error) {
 		f.Msg = decodeMsg(x, v, h.Opcode)
 	}
 	if x.err == nil && x.pos != len(body) {
-		x.fail("%d trailing bytes after the message", len(body)-x.pos)
+		x.invalid("%d trailing bytes after the message", len(body)-x.pos)
 	}
 	if x.err != nil {
 		return nil, x.err
@@ -282,7 +308,7 @@ func decodeMsg(x *r, v Version, op byte) Msg {
 		if v.HasPrepareFlags() {
 			fl := uint32(x.int())
 			if fl&^0x01 != 0 {
-				x.fail("PREPARE flags %#x", fl)
+				x.invalid("PREPARE flags %#x", fl)
 			}
 			if fl&0x01 != 0 {
 				s := x.str()
@@ -305,7 +331,7 @@ func decodeMsg(x *r, v Version, op byte) Msg {
 		case 1:
 		case 2:
 			if v != DSE2 {
-				x.fail("revision type 2 not defined for %v", v)
+				x.invalid("revision type 2 not defined for %v", v)
 			}
 			m.NextPages = x.int()
 		default:
@@ -329,6 +355,10 @@ func decodeMsg(x *r, v Version, op byte) Msg {
 				x.fail("column count %d", m.Meta.ColumnCount)
 				return m
 			}
+			if m.Meta.ColumnCount == 0 && n > 1<<16 {
+				x.fail("%d rows of zero columns: not materialised by this decoder", n)
+				return m
+			}
 			if rem := int64(len(x.b) - x.pos); int64(n)*int64(m.Meta.ColumnCount)*4 > rem {
 				x.fail("%d rows x %d columns cannot fit in the remaining %d bytes", n, m.Meta.ColumnCount, rem)
 				return m
@@ -350,7 +380,7 @@ func decodeMsg(x *r, v Version, op byte) Msg {
 			}
 			fl := uint32(x.int())
 			if fl&^0x01 != 0 {
-				x.fail("prepared metadata flags %#x", fl)
+				x.invalid("prepared metadata flags %#x", fl)
 			}
 			cc := x.int()
 			if cc < 0 {
@@ -388,7 +418,7 @@ func decodeMsg(x *r, v Version, op byte) Msg {
 		case "STATUS_CHANGE":
 			m := &StatusChange{ChangeType: x.str(), Addr: x.inet()}
 			if m.ChangeType != "UP" && m.ChangeType != "DOWN" {
-				x.fail("status change %q", m.ChangeType)
+				x.invalid("status change %q", m.ChangeType)
 			}
 			return m
 		case "TOPOLOGY_CHANGE":
@@ -397,10 +427,10 @@ func decodeMsg(x *r, v Version, op byte) Msg {
 			case "NEW_NODE", "REMOVED_NODE":
 			case "MOVED_NODE":
 				if !v.HasV3Types() {
-					x.fail("MOVED_NODE not defined for %v", v)
+					x.invalid("MOVED_NODE not defined for %v", v)
 				}
 			default:
-				x.fail("topology change %q", m.ChangeType)
+				x.invalid("topology change %q", m.ChangeType)
 			}
 			return m
 		}
@@ -434,8 +464,10 @@ func decodeQueryOptions(x *r, v Version, q *QueryOptions) {
 		allowed |= 0x40000000 | 0x80000000
 	}
 	if fl&^allowed != 0 {
-		x.fail("query flags %#x not defined for %v", fl&^allowed, v)
-		return
+		x.invalid("query flags %#x not defined for %v", fl&^allowed, v)
+		if x.err != nil {
+			return
+		}
 	}
 	if fl&0x01 != 0 {
 		q.HasValues = true
@@ -451,7 +483,7 @@ func decodeQueryOptions(x *r, v Version, q *QueryOptions) {
 			}
 		}
 	} else if fl&0x40 != 0 {
-		x.fail("VALUE_NAMES flag without VALUES")
+		x.invalid("VALUE_NAMES flag without VALUES")
 	}
 	q.SkipMetadata = fl&0x02 != 0
 	if fl&0x04 != 0 {
@@ -459,7 +491,7 @@ func decodeQueryOptions(x *r, v Version, q *QueryOptions) {
 		q.PageSize = &p
 		q.PageSizeInBytes = fl&0x40000000 != 0
 	} else if fl&0x40000000 != 0 {
-		x.fail("PAGE_SIZE_BYTES flag without PAGE_SIZE")
+		x.invalid("PAGE_SIZE_BYTES flag without PAGE_SIZE")
 	}
 	if fl&0x08 != 0 {
 		b := x.bytes()
@@ -528,8 +560,10 @@ func decodeBatch(x *r, v Version) *Batch {
 		allowed |= 0x100
 	}
 	if fl&^allowed != 0 {
-		x.fail("batch flags %#x not defined for %v", fl&^allowed, v)
-		return m
+		x.invalid("batch flags %#x not defined for %v", fl&^allowed, v)
+		if x.err != nil {
+			return m
+		}
 	}
 	if fl&0x10 != 0 {
 		c := x.short()
@@ -560,8 +594,10 @@ func decodeRowsMetadata(x *r, v Version, m *RowsMetadata) {
 		allowed |= 0x40000000 | 0x80000000
 	}
 	if fl&^allowed != 0 {
-		x.fail("rows flags %#x not defined for %v", fl&^allowed, v)
-		return
+		x.invalid("rows flags %#x not defined for %v", fl&^allowed, v)
+		if x.err != nil {
+			return
+		}
 	}
 	m.ColumnCount = x.int()
 	if m.ColumnCount < 0 {
@@ -584,7 +620,7 @@ func decodeRowsMetadata(x *r, v Version, m *RowsMetadata) {
 		m.ContinuousPage = &p
 		m.LastPage = fl&0x80000000 != 0
 	} else if fl&0x80000000 != 0 {
-		x.fail("LAST_CONTINUOUS_PAGE without CONTINUOUS_PAGING")
+		x.invalid("LAST_CONTINUOUS_PAGE without CONTINUOUS_PAGING")
 	}
 	if fl&0x04 == 0 {
 		m.Columns = decodeColumns(x, v, int(m.ColumnCount), fl&0x01 != 0)
@@ -632,11 +668,11 @@ func decodeType(x *r, v Version, depth int) Type {
 	case t.Code >= 0x0001 && t.Code <= 0x0010 && t.Code != 0x000A:
 	case t.Code >= 0x0011 && t.Code <= 0x0014: // date, time, smallint, tinyint: v4+
 		if !v.HasV4Errors() {
-			x.fail("type %#x not defined for %v", t.Code, v)
+			x.invalid("type %#x not defined for %v", t.Code, v)
 		}
 	case t.Code == 0x0015:
 		if !v.HasDuration() {
-			x.fail("duration type not defined for %v", v)
+			x.invalid("duration type not defined for %v", v)
 		}
 	case t.Code == TList || t.Code == TSet:
 		t.Elems = []Type{decodeType(x, v, depth+1)}
@@ -645,7 +681,7 @@ func decodeType(x *r, v Version, depth int) Type {
 		t.Elems = []Type{k, decodeType(x, v, depth+1)}
 	case t.Code == TUDT:
 		if !v.HasV3Types() {
-			x.fail("UDT not defined for %v", v)
+			x.invalid("UDT not defined for %v", v)
 		}
 		t.Keyspace, t.Name = x.str(), x.str()
 		n := int(x.short())
@@ -655,7 +691,7 @@ func decodeType(x *r, v Version, depth int) Type {
 		}
 	case t.Code == TTuple:
 		if !v.HasV3Types() {
-			x.fail("tuple not defined for %v", v)
+			x.invalid("tuple not defined for %v", v)
 		}
 		n := int(x.short())
 		for i := 0; i < n && x.err == nil; i++ {
@@ -672,8 +708,10 @@ func decodeSchemaChange(x *r, v Version, event bool) *SchemaChange {
 	switch m.ChangeType {
 	case "CREATED", "UPDATED", "DROPPED":
 	default:
-		x.fail("schema change type %q", m.ChangeType)
-		return m
+		x.invalid("schema change type %q", m.ChangeType)
+		if x.err != nil {
+			return m
+		}
 	}
 	if !v.HasSchemaChangeTarget() {
 		m.Keyspace, m.Object = x.str(), x.str()
@@ -692,7 +730,7 @@ func decodeSchemaChange(x *r, v Version, event bool) *SchemaChange {
 		m.Object = x.str()
 	case "FUNCTION", "AGGREGATE":
 		if !v.HasFunctionTargets() {
-			x.fail("target %s not defined for %v", m.Target, v)
+			x.invalid("target %s not defined for %v", m.Target, v)
 		}
 		m.Object = x.str()
 		m.Args = x.strlist()
